@@ -191,6 +191,9 @@ func (m *memFile) MMap(sz int) ([]byte, error) {
 }
 
 func (m *memFile) MUnmap(b []byte) error {
+	if b == nil {
+		return &verifIOErr{"munmap of an empty region (EINVAL)"} // as munmap(2)
+	}
 	m.mmaps--
 	return nil
 }
